@@ -1,8 +1,9 @@
 #!/bin/sh
+# usage: seed_matrix.sh [prefix-glob, e.g. 'C0' or '*d']
 # Runs every seeded change against the checks its meta.json says report it; prints one line per
 # (seed, check): CAUGHT / MISSED. /repo must be clean; it is restored after every seed.
 cd /verif
-for d in seeded/*/; do
+for d in seeded/${1:-}*/; do
     name=$(basename $d)
     checks=$(python3 -c "import json;print(' '.join(json.load(open('$d/meta.json'))['checks_that_report_it']))")
     out=$(./mutate.sh /verif/$d/patch.diff $checks 2>&1)
